@@ -10,6 +10,7 @@
   With `--trace` every line is followed by ` leak=<n>:<hash>` (length and hash of the leakage trace).
 -/
 import TJ.Gen.MiniC.Prog
+import TJ.MiniC.Frame
 open TJ.MiniC TJ.Gen.MiniC
 
 def hexDigit (c : Char) : Option Nat :=
@@ -106,8 +107,14 @@ def call (w : World) (mem : Array Block) (ent : List Delivery) (name : String) (
 
 def toInt32 (n : Nat) : Int := if n ≥ 2147483648 then (n : Int) - 4294967296 else n
 
+/-- persistent objects (blocks below 4·nobj) read or written according to the trace -/
+def touched (l : List Ev) : String :=
+  let bs := (l.foldl (fun acc e => (evTouches e).foldl (fun a b => if b < 4 * nobj ∧ ¬ a.contains b then b :: a else a) acc) []).toArray.qsort (· < ·)
+  if bs.isEmpty then "-" else ",".intercalate (bs.toList.map toString)
+
 def finish (w : World) (st : St) (line : String) : World × String :=
-  ({ w with mem := st.mem.extract 0 (4 * nobj) }, if w.trace then s!"{line} leak={leakSummary st.leak}" else line)
+  ({ w with mem := st.mem.extract 0 (4 * nobj) },
+   if w.trace then s!"{line} leak={leakSummary st.leak} touch={touched st.leak}" else line)
 
 def le (n k : Nat) : List UInt8 := (List.range k).map fun i => ((n >>> (8 * i)) % 256).toUInt8
 
